@@ -68,26 +68,47 @@ Proof.
   induction fuel as [|f IH]; intros cs bs pos labels H; cbn [collect]; [exact H|].
   destruct (decode (table_of TL) bs) as [[i n]|]; [|exact H]. apply IH, add_targets_len, H.
 Qed.
+Lemma filter_lenN {A} (f : A -> bool) l : lenN (filter f l) <= lenN l.
+Proof. induction l as [|x l IH]; [cbn; lia|]. cbn [filter]. destruct (f x); rewrite ?lenN_cons; lia. Qed.
 Lemma fn_labels_len c : lenN (fn_labels c) <= max_disasm_labels.
-Proof. unfold Asm.fn_labels. apply collect_len. unfold max_disasm_labels. cbn. lia. Qed.
-
-(* ---------------------------------------------------------------- from the boolean conjuncts to the hypotheses of run_body *)
-Lemma args_ok_of L p ks : forall vs, wf_args ks vs -> targets_ok ks vs p L = true -> f64s_ok good ks vs = true ->
-  args_ok good L p ks vs.
 Proof.
-  induction ks as [|k ks IH]; intros [|v vs] Hw Ht Hf; cbn [wf_args targets_ok f64s_ok AsmLine.args_ok] in *; try contradiction; [exact I|].
-  destruct Hw as [Hv Hw]. apply andb_true_iff in Ht. destruct Ht as [Ht1 Ht]. apply andb_true_iff in Hf. destruct Hf as [Hf1 Hf].
-  split; [|apply IH; assumption]. split; [exact Hv|]. split; intros ->; [exact Ht1|exact Hf1].
+  unfold Asm.fn_labels. etransitivity; [apply filter_lenN|]. apply collect_len. unfold max_disasm_labels. cbn. lia.
 Qed.
 
-Lemma instr_ok_of c D : decode_all (length c) c 0 = Some D -> bytes_ok c -> code_targets TL c = true -> code_f64 TL good c = true ->
+(* on code that decodes, the boundary scan visits exactly the instruction starts: every label is a start or the end *)
+Lemma walk_decode_all fuel : forall bs pos D, decode_all fuel bs pos = Some D -> walk TL fuel bs pos = map fst D.
+Proof.
+  induction fuel as [|f IH]; intros bs pos D H.
+  - destruct bs; [inversion H; reflexivity|discriminate].
+  - destruct bs as [|b r]; [inversion H; reflexivity|]. cbn [Asm.decode_all] in H. cbn [walk].
+    destruct (decode (table_of TL) (b :: r)) as [[i n]|]; [|discriminate].
+    destruct (Asm.decode_all TL f (skipn n (b :: r)) (pos + N.of_nat n)) as [D'|] eqn:E; [|discriminate].
+    inversion H; subst. cbn [map fst]. f_equal. apply IH, E.
+Qed.
+Lemma fn_labels_bnd c D : decode_all (length c) c 0 = Some D -> forall t, In t (fn_labels c) -> In t (map fst D ++ [lenN c]).
+Proof.
+  intros Hd t Ht. unfold Asm.fn_labels in Ht. apply filter_In in Ht. destruct Ht as [_ Hb]. unfold on_boundary in Hb.
+  rewrite (walk_decode_all _ _ _ _ Hd) in Hb. apply orb_true_iff in Hb. apply in_or_app. destruct Hb as [Hb|Hb].
+  - apply N.eqb_eq in Hb. right. left. symmetry. exact Hb.
+  - left. apply mem_N_In_pure, Hb.
+Qed.
+
+(* ---------------------------------------------------------------- from the boolean conjuncts to the hypotheses of run_body *)
+Lemma args_ok_of L p ks : forall vs, wf_args ks vs -> f64s_ok good ks vs = true -> args_ok good L p ks vs.
+Proof.
+  induction ks as [|k ks IH]; intros [|v vs] Hw Hf; cbn [wf_args f64s_ok AsmLine.args_ok] in *; try contradiction; [exact I|].
+  destruct Hw as [Hv Hw]. apply andb_true_iff in Hf. destruct Hf as [Hf1 Hf].
+  split; [|apply IH; assumption]. split; [exact Hv|]. intros ->. exact Hf1.
+Qed.
+
+Lemma instr_ok_of c D : decode_all (length c) c 0 = Some D -> bytes_ok c -> code_f64 TL good c = true ->
   Forall (instr_ok TL good (fn_labels c)) D.
 Proof.
-  intros Hd Hok Ht Hf. destruct ((LL decode_all_spec) _ _ _ _ Hok Hd) as [_ [_ Hwf]].
-  unfold code_targets, code_f64, on_code in *. rewrite Hd in *. rewrite forallb_forall in Ht, Hf.
+  intros Hd Hok Hf. destruct ((LL decode_all_spec) _ _ _ _ Hok Hd) as [_ [_ Hwf]].
+  unfold code_f64, on_code in *. rewrite Hd in *. rewrite forallb_forall in Hf.
   rewrite Forall_forall in *. intros [p i] Hin. destruct (Hwf _ Hin) as [ks [HT Hw]]. cbn [fst snd] in *.
   exists ks. split; [exact HT|]. cbn [fst snd].
-  specialize (Ht _ Hin). specialize (Hf _ Hin). cbn [fst snd] in Ht, Hf. rewrite ((LL kinds_of_T) _ _ HT) in Ht, Hf.
+  specialize (Hf _ Hin). cbn [fst snd] in Hf. rewrite ((LL kinds_of_T) _ _ HT) in Hf.
   apply args_ok_of; assumption.
 Qed.
 
@@ -110,7 +131,7 @@ Lemma mk_patches_fn L k start ks : forall vs off p, In p (mk_patches L k start o
 Proof.
   induction ks as [|kk ks IH]; intros [|v vs] off p H; cbn [mk_patches] in H; try destruct H.
   apply in_app_or in H. destruct H as [H|H]; [|eapply IH, H].
-  unfold patch1 in H. destruct (okind_eqb kk KI32); [destruct H as [<-|[]]; reflexivity|destruct H].
+  unfold patch1 in H. destruct (labelled L start kk v); [destruct H as [<-|[]]; reflexivity|destruct H].
 Qed.
 Lemma all_patches_fn L k D p : In p (all_patches TL L k D) -> p_fn p = k.
 Proof. unfold all_patches. intros H. apply in_flat_map in H. destruct H as [pi [_ H]]. eapply mk_patches_fn, H. Qed.
@@ -120,59 +141,50 @@ Proof.
   apply IH. intros q Hq. apply H. right. exact Hq.
 Qed.
 
-Lemma run_body_end m c D st1 k LS0 :
+Lemma run_body_end m c D st1 k :
   decode_all (length c) c 0 = Some D -> bytes_ok c ->
-  code_targets TL c = true -> code_f64 TL good c = true -> code_boundaries TL c = true -> code_patches TL c = true ->
+  code_f64 TL good c = true -> code_patches TL c = true ->
   lenN c < 4294967296 ->
-  a_in_fn st1 = true -> a_cur st1 = k -> a_size st1 = 0 -> a_rcode st1 = [] -> a_patches st1 = [] -> a_labels st1 = LS0 ->
-  (forall l, In l LS0 -> l_fn l < k) ->
-  lenN LS0 + lenN (fn_labels c) <= max_labels ->
+  a_in_fn st1 = true -> a_cur st1 = k -> a_size st1 = 0 -> a_rcode st1 = [] -> a_patches st1 = [] -> a_labels st1 = [] ->
   exists st_e, run st1 (printed_lines m (fn_labels c) D (lenN c) ++ [B ".end"]) = inl st_e /\
     a_mod st_e = {| m_flags := m_flags (a_mod st1); m_entry := m_entry (a_mod st1); m_strings := m_strings (a_mod st1);
                     m_funcs := set_fn_code (m_funcs (a_mod st1)) k (lenN (m_code (a_mod st1))) (lenN c);
                     m_code := m_code (a_mod st1) ++ c |} /\
-    a_in_fn st_e = false /\ a_patches st_e = [] /\ (forall l, In l (a_labels st_e) -> l_fn l < k + 1) /\
-    lenN (a_labels st_e) <= lenN LS0 + lenN (fn_labels c).
+    a_in_fn st_e = false /\ a_patches st_e = [] /\ a_labels st_e = [].
 Proof.
-  intros Hd Hbok Ht Hf Hb Hp Hlen Hin Hcur Hsz Hrc Hpa Hla HLS Hmax.
+  intros Hd Hbok Hf Hp Hlen Hin Hcur Hsz Hrc Hpa Hla.
   set (L := fn_labels c) in *. set (e := lenN c) in *.
   destruct ((LL decode_all_spec) _ _ _ _ Hbok Hd) as [Ecode [Hch _]]. rewrite N.add_0_l in Hch. fold e in Hch.
-  pose proof (instr_ok_of c D Hd Hbok Ht Hf) as Hok. fold L in Hok.
+  pose proof (instr_ok_of c D Hd Hbok Hf) as Hok. fold L in Hok.
   destruct (chain_positions TL D 0 e Hch) as [_ [_ Hnd]].
   pose proof (filter_count_le L _ Hnd) as Hcnt.
   pose proof (fn_labels_len c) as HL. fold L in HL.
   assert (Hpat : lenN (a_patches st1) + total_i32 TL D <= max_patches).
   { rewrite Hpa. unfold code_patches, on_code in Hp. rewrite Hd in Hp. apply N.leb_le in Hp. unfold total_i32. rewrite lenN_nil. lia. }
   assert (Hinv : lab_inv L k st1 0).
-  { intros l Hl Hfn. rewrite Hla in Hl. specialize (HLS l Hl). lia. }
+  { intros l Hl Hfn. rewrite Hla in Hl. destruct Hl. }
   rewrite (LL run_app).
   rewrite ((LL run_body) m L k HL D st1 0 e Hch Hin Hcur Hsz Hok Hinv).
-  2:{ rewrite Hla. lia. }
+  2:{ rewrite Hla, lenN_nil. unfold max_disasm_labels, max_labels in *. lia. }
   2:{ exact Hpat. }
   destruct ((LL sim_fields) L D st1 0 e Hch Hsz Hok) as [S1 [S2 [S3 [S4 [S5 [S6 S7]]]]]].
   set (sb := sim TL L st1 D) in *.
   destruct ((LL maybe_label_fields) L sb e) as [F1 [F2 [F3 [F4 [F5 [F6 F7]]]]]].
   set (st_b := maybe_label L sb e) in *.
   cbn [AsmFn.run]. rewrite (LL process_end) by (rewrite F1, S1; exact Hin).
-  assert (Elab : a_labels st_b = LS0 ++ labs L k (map fst D ++ [e])).
-  { unfold st_b. rewrite ((LL maybe_label_labels_eq) L sb e S4), S7, S2, Hcur, Hla. unfold labs. rewrite flat_map_app. cbn [flat_map].
-    rewrite app_nil_r, <- app_assoc. reflexivity. }
-  assert (HLbnd : forall t, In t L -> In t (map fst D ++ [e])).
-  { intros t Ht'. unfold code_boundaries, on_code in Hb. rewrite Hd in Hb. fold L in Hb. rewrite forallb_forall in Hb.
-    apply mem_N_In_pure. apply Hb in Ht'. exact Ht'. }
+  assert (Elab : a_labels st_b = labs L k (map fst D ++ [e])).
+  { unfold st_b. rewrite ((LL maybe_label_labels_eq) L sb e S4), S7, S2, Hcur, Hla. unfold labs. rewrite flat_map_app. cbn [flat_map app].
+    rewrite app_nil_r. reflexivity. }
+  assert (HLbnd : forall t, In t L -> In t (map fst D ++ [e])) by (apply fn_labels_bnd; exact Hd).
   assert (Hfind : forall t idx, index_of t L 0 = Some idx -> In t (map fst D ++ [e]) ->
             exists l, find_label (a_labels st_b) (label_name idx) k = Some l /\ l_off l = t).
-  { intros t idx Ei Hin'. rewrite Elab. rewrite (LL find_label_skip) by (intros l Hl E; specialize (HLS l Hl); lia).
-    apply (LL find_label_labs); assumption. }
+  { intros t idx Ei Hin'. rewrite Elab. apply (LL find_label_labs); assumption. }
   rewrite F4, S5, Hpa, F2, S2, Hcur, F6, S6, Hrc. cbn [app rev].
   pose proof ((LL resolve_all) L k (a_labels st_b) (map fst D ++ [e]) HLbnd Hfind D 0 e [] Hch Hlen Hok eq_refl) as Hres.
   cbn [app] in Hres. rewrite Hres. unfold code_of_D in *. rewrite <- Ecode.
   eexists. split; [reflexivity|]. cbn [a_mod a_in_fn a_patches a_labels].
-  rewrite F5, S3, F3, S4. split; [reflexivity|]. split; [reflexivity|]. split; [|split].
-  - apply filter_none_fn. intros p Hp'. apply (all_patches_fn L k D p Hp').
-  - intros l Hl. rewrite Elab in Hl. apply in_app_or in Hl. destruct Hl as [Hl|Hl]; [specialize (HLS l Hl); lia|].
-    rewrite (labs_fn _ _ _ _ Hl). lia.
-  - rewrite Elab, lenN_app, labs_len. lia.
+  rewrite F5, S3, F3, S4. split; [reflexivity|]. split; [reflexivity|]. split; [|reflexivity].
+  apply filter_none_fn. intros p Hp'. apply (all_patches_fn L k D p Hp').
 Qed.
 
 (* ---------------------------------------------------------------- one function block *)
@@ -202,23 +214,20 @@ Proof.
 Qed.
 
 Lemma run_fn m st f fl en Fdone Cdone name :
-  a_mod st = mkmod fl en (m_strings m) Fdone Cdone -> a_in_fn st = false -> a_patches st = [] ->
-  (forall l, In l (a_labels st) -> l_fn l < lenN Fdone) ->
+  a_mod st = mkmod fl en (m_strings m) Fdone Cdone -> a_in_fn st = false -> a_patches st = [] -> a_labels st = [] ->
   nthN (m_strings m) (fn_name f) = Some name -> fname_okb name = true -> distinct_strs (m_strings m) = true ->
   fn_arity f < 65536 -> fn_locals f < 65536 -> fn_upv f < 65536 ->
   wf_codeb TL good (code_of m f) = true -> bytes_ok (code_of m f) ->
   lenN (code_of m f) = fn_len f -> fn_off f = lenN Cdone -> lenN (code_of m f) < 4294967296 ->
-  lenN (a_labels st) + lenN (fn_labels (code_of m f)) <= max_labels ->
   exists st', run st (fn_block m f) = inl st' /\
     a_mod st' = mkmod fl en (m_strings m) (Fdone ++ [f]) (Cdone ++ code_of m f) /\
-    a_in_fn st' = false /\ a_patches st' = [] /\ (forall l, In l (a_labels st') -> l_fn l < lenN Fdone + 1) /\
-    lenN (a_labels st') <= lenN (a_labels st) + lenN (fn_labels (code_of m f)).
+    a_in_fn st' = false /\ a_patches st' = [] /\ a_labels st' = [].
 Proof.
-  intros Hmod Hin Hpa HLS Hname Hfn Hdist Ha Hl Hu Hwf Hbok Hlen Hoff Hlt Hmax.
+  intros Hmod Hin Hpa HLS Hname Hfn Hdist Ha Hl Hu Hwf Hbok Hlen Hoff Hlt.
   unfold fname_okb in Hfn. rewrite !andb_true_iff in Hfn. destruct Hfn as [[Hid Hne] Hnl].
   apply negb_true_iff, Nat.eqb_neq in Hne. apply N.ltb_lt in Hnl.
   assert (Hne' : name <> []) by (intros ->; apply Hne; reflexivity).
-  unfold wf_codeb in Hwf. rewrite !andb_true_iff in Hwf. destruct Hwf as [[[[Hdec Ht] Hb] Hp] Hf].
+  unfold wf_codeb in Hwf. rewrite !andb_true_iff in Hwf. destruct Hwf as [[Hdec Hp] Hf].
   unfold code_decodes in Hdec. destruct (decode_all (length (code_of m f)) (code_of m f) 0) as [D|] eqn:Hd; [|discriminate].
   unfold fn_block, fn_name_of, body_lines. rewrite Hname, Hd, (cstr_id name (all_ident_no0 _ Hid)).
   cbn [AsmFn.run].
@@ -229,11 +238,11 @@ Proof.
   change (printed_lines m (fn_labels (code_of m f)) D (lenN (code_of m f)) ++ [B ".end"; []])
     with (printed_lines m (fn_labels (code_of m f)) D (lenN (code_of m f)) ++ [B ".end"] ++ [[]]).
   rewrite app_assoc, (LL run_app).
-  destruct (run_body_end m (code_of m f) D st1 (lenN Fdone) (a_labels st) Hd Hbok Ht Hf Hb Hp Hlt) as [st_e [Hrun [Em [Ei [Ep [El En]]]]]];
+  destruct (run_body_end m (code_of m f) D st1 (lenN Fdone) Hd Hbok Hf Hp Hlt) as [st_e [Hrun [Em [Ei [Ep El]]]]];
     try reflexivity; try assumption.
   { unfold st1. cbn [a_cur]. rewrite Hmod. reflexivity. }
   rewrite Hrun. cbn [AsmFn.run]. rewrite (LL process_blank).
-  exists st_e. split; [reflexivity|]. split; [|split; [exact Ei|split; [exact Ep|split; [exact El|exact En]]]].
+  exists st_e. split; [reflexivity|]. split; [|split; [exact Ei|split; [exact Ep|exact El]]].
   rewrite Em. unfold st1. cbn [a_mod m_flags m_entry m_strings m_funcs m_code]. rewrite Hmod. cbn [mkmod m_flags m_entry m_strings m_funcs m_code].
   unfold mkmod. rewrite set_fn_code_last. cbn [fn_name fn_arity fn_locals fn_upv]. rewrite Hlen, <- Hoff. destruct f; reflexivity.
 Qed.
@@ -261,25 +270,21 @@ Qed.
 Definition fent_good (m : module) (f : fent) : Prop :=
   (exists name, nthN (m_strings m) (fn_name f) = Some name /\ fname_okb name = true) /\
   fn_arity f < 65536 /\ fn_locals f < 65536 /\ fn_upv f < 65536 /\ wf_codeb TL good (code_of m f) = true.
-Definition label_sum (m : module) (fs : list fent) : N :=
-  fold_right (fun f a => lenN (fn_labels (code_of m f)) + a) 0 fs.
 
 Lemma run_fns m fl en : distinct_strs (m_strings m) = true -> bytes_ok (m_code m) -> lenN (m_code m) < 4294967296 ->
   forall Ftodo Fdone off st,
   a_mod st = mkmod fl en (m_strings m) Fdone (firstn (N.to_nat off) (m_code m)) -> off <= lenN (m_code m) ->
-  a_in_fn st = false -> a_patches st = [] -> (forall l, In l (a_labels st) -> l_fn l < lenN Fdone) ->
+  a_in_fn st = false -> a_patches st = [] -> a_labels st = [] ->
   layout_okb Ftodo off (lenN (m_code m)) = true -> Forall (fent_good m) Ftodo ->
-  lenN (a_labels st) + label_sum m Ftodo <= max_labels ->
   exists st', run st (flat_map (fn_block m) Ftodo) = inl st' /\
               a_mod st' = mkmod fl en (m_strings m) (Fdone ++ Ftodo) (m_code m) /\ a_in_fn st' = false.
 Proof.
-  intros Hdist Hbok Hclen. induction Ftodo as [|f Ftodo IH]; intros Fdone off st Hmod Hoff Hin Hpa HLS Hlay Hgood Hsum.
+  intros Hdist Hbok Hclen. induction Ftodo as [|f Ftodo IH]; intros Fdone off st Hmod Hoff Hin Hpa HLS Hlay Hgood.
   - cbn [layout_okb] in Hlay. apply N.eqb_eq in Hlay. subst off. exists st. split; [reflexivity|]. split; [|exact Hin].
     rewrite Hmod, app_nil_r. unfold lenN. rewrite Nat2N.id, firstn_all. reflexivity.
   - cbn [layout_okb] in Hlay. apply andb_true_iff in Hlay. destruct Hlay as [Hfo Hlay]. apply N.eqb_eq in Hfo.
     pose proof (layout_le _ _ _ Hlay) as Hle.
     inversion Hgood as [|? ? [[name [Hname Hfn]] [Ha [Hl [Hu Hwf]]]] Hgood']; subst.
-    cbn [label_sum fold_right] in Hsum. fold (label_sum m Ftodo) in Hsum.
     assert (Hc : code_of m f = firstn (N.to_nat (fn_len f)) (skipn (N.to_nat (fn_off f)) (m_code m)) /\ lenN (code_of m f) = fn_len f).
     { unfold code_of. apply slice_spec. lia. }
     destruct Hc as [Hc1 Hc2].
@@ -287,17 +292,14 @@ Proof.
     { unfold lenN in *. rewrite firstn_length. lia. }
     cbn [flat_map]. rewrite (LL run_app).
     destruct (run_fn m st f fl en Fdone (firstn (N.to_nat (fn_off f)) (m_code m)) name Hmod Hin Hpa HLS Hname Hfn Hdist Ha Hl Hu Hwf)
-      as [st1 [Hrun [Em [Ei [Ep [El En]]]]]].
+      as [st1 [Hrun [Em [Ei [Ep El]]]]].
     + rewrite Hc1. apply bytes_ok_firstn, bytes_ok_skipn, Hbok.
     + exact Hc2.
     + symmetry. exact Hcd.
     + rewrite Hc2. lia.
-    + lia.
     + rewrite Hrun.
       destruct (IH (Fdone ++ [f]) (fn_off f + fn_len f) st1) as [st' [Hrun' [Em' Ei']]]; try assumption.
       * rewrite Em. f_equal. rewrite Hc1, N2Nat.inj_add. symmetry. apply firstn_plus.
-      * rewrite lenN_app, lenN_cons, lenN_nil. intros l Hl'. specialize (El l Hl'). lia.
-      * lia.
       * exists st'. split; [exact Hrun'|]. split; [|exact Ei']. rewrite Em', <- app_assoc. reflexivity.
 Qed.
 
@@ -314,7 +316,7 @@ Proof.
   destruct E as [x [Hx Hb]]. apply bytes_eqb_eq in Hb. subst. exact (H Hx).
 Qed.
 
-Definition str_good (s : list byte) : Prop := ~ In 59 s /\ ~ In 35 s /\ lenN s < string_buf.
+Definition str_good (s : list byte) : Prop := lenN s < string_buf.
 
 Lemma run_strings : forall strs pre st, a_mod st = mkmod 0 0 pre [] [] -> NoDup (pre ++ strs) -> Forall str_good strs ->
   exists st', run st (map string_line strs) = inl st' /\ a_mod st' = mkmod 0 0 (pre ++ strs) [] [] /\
@@ -322,8 +324,8 @@ Lemma run_strings : forall strs pre st, a_mod st = mkmod 0 0 pre [] [] -> NoDup 
 Proof.
   induction strs as [|s strs IH]; intros pre st Hmod Hnd Hg.
   - exists st. rewrite app_nil_r. repeat split; try reflexivity. exact Hmod.
-  - inversion Hg as [|? ? [H59 [H35 Hlen]] Hg']; subst. cbn [map AsmFn.run].
-    rewrite (LL string_line_prep) by assumption. rewrite (LL process_string) by exact Hlen.
+  - inversion Hg as [|? ? Hlen Hg']; subst. cbn [map AsmFn.run].
+    rewrite (LL string_line_prep). rewrite (LL process_string) by exact Hlen.
     assert (Hni : ~ In s pre).
     { apply NoDup_remove_2 in Hnd. intros H. apply Hnd. apply in_or_app. left. exact H. }
     assert (Hadd : fst (add_string (a_mod st) s) = mkmod 0 0 (pre ++ [s]) [] []).
@@ -343,10 +345,10 @@ Definition mid_lines (m : module) : list text :=
 Definition module_lines (m : module) : list text :=
   map string_line (m_strings m) ++ mid_lines m ++ flat_map (fn_block m) (m_funcs m).
 
-Lemma dis_strings_lines ss : Forall (fun s => ~ In 0 s) ss -> flat_map dis_string ss = join (map string_line ss).
+Lemma dis_strings_lines ss : flat_map dis_string ss = join (map string_line ss).
 Proof.
-  induction ss as [|s ss IH]; intros H; [reflexivity|]. inversion H; subst. cbn [flat_map map]. rewrite join_cons, IH by assumption.
-  unfold dis_string, string_line. rewrite cstr_id by assumption. rewrite <- !app_assoc. reflexivity.
+  induction ss as [|s ss IH]; [reflexivity|]. cbn [flat_map map]. rewrite join_cons, IH.
+  unfold dis_string, string_line. rewrite <- !app_assoc. reflexivity.
 Qed.
 
 Lemma body_text_lines m c : code_decodes TL c = true -> bytes_ok c -> disasm_function TL print_f64 m c = join (body_lines m c).
@@ -385,12 +387,12 @@ Proof.
   intros g Hg. apply H. right. exact Hg.
 Qed.
 
-Lemma disasm_module_lines m : Forall (fun s => ~ In 0 s) (m_strings m) ->
+Lemma disasm_module_lines m :
   (forall f, In f (m_funcs m) -> fn_off f + fn_len f <= lenN (m_code m) /\ code_decodes TL (code_of m f) = true) ->
   lenN (m_code m) < 4294967296 -> bytes_ok (m_code m) ->
   disasm_module TL print_f64 m = join (module_lines m).
 Proof.
-  intros Hs Hf Hlt Hbok. unfold disasm_module, module_lines, mid_lines. rewrite !join_app, dis_strings_lines, dis_fns_lines by assumption.
+  intros Hf Hlt Hbok. unfold disasm_module, module_lines, mid_lines. rewrite !join_app, dis_strings_lines, dis_fns_lines by assumption.
   rewrite <- !app_assoc. f_equal. f_equal; [destruct (m_strings m); reflexivity|]. f_equal.
   destruct (N.testbit (m_flags m) 0); [|reflexivity]. unfold entry_line. rewrite join_cons. cbn [join flat_map app].
   rewrite <- !app_assoc. reflexivity.
@@ -398,7 +400,7 @@ Qed.
 
 (* ---------------------------------------------------------------- no line contains a newline or a NUL *)
 Definition clean (l : text) : Prop := ~ In 10 l /\ ~ In 0 l.
-Definition strs_clean (m : module) : Prop := forall s, In s (m_strings m) -> clean s.
+Definition names_clean (m : module) : Prop := forall f s, In f (m_funcs m) -> nthN (m_strings m) (fn_name f) = Some s -> clean s.
 
 Lemma cstr_sub s c : In c (cstr s) -> In c s.
 Proof.
@@ -410,24 +412,35 @@ Proof. intros F. rewrite Forall_forall in F. split; intros H; specialize (F _ H)
 Lemma clean_app a b : clean a -> clean b -> clean (a ++ b).
 Proof. intros [A1 A2] [B1 B2]. split; intros H; apply in_app_or in H; tauto. Qed.
 
-Lemma fmt_comment_clean m L pos o v : strs_clean m -> clean (fmt_operands print_f64 m L pos o 0 [KU32] [v]).
+Lemma cstr_no0 s : ~ In 0 (cstr s).
+Proof.
+  induction s as [|x s IH]; [intros []|]. cbn [cstr]. destruct (N.eqb_spec x 0); [intros []|]. intros [H|H]; [congruence|exact (IH H)].
+Qed.
+Lemma esc_nl_clean s : ~ In 0 s -> clean (esc_nl s).
+Proof.
+  induction s as [|x s IH]; intros H0; [split; intros []|]. cbn [esc_nl].
+  assert (H0' : ~ In 0 s) by (intros G; apply H0; right; exact G). destruct (IH H0') as [I1 I2].
+  apply clean_app; [|split; assumption].
+  destruct (N.eqb_spec x 10); [split; intros [G|[G|[]]]; discriminate|].
+  split; intros [G|[]]; [congruence|]. apply H0. left. exact G.
+Qed.
+
+Lemma fmt_comment_clean m L pos o v : names_clean m -> clean (fmt_operands print_f64 m L pos o 0 [KU32] [v]).
 Proof.
   intros Hs. cbn [Asm.fmt_operands Asm.fmt_operand]. rewrite app_nil_r.
   assert (Hd : clean (32 :: print_dec v)).
   { change (32 :: print_dec v) with ([32] ++ print_dec v). apply clean_app; [split; intros [H|[]]; discriminate|apply plain_clean, print_dec_plain]. }
-  assert (Hc : forall s, In s (m_strings m) -> clean (cstr s)).
-  { intros s Hin. destruct (Hs s Hin) as [H1 H2]. split; intros H; apply cstr_sub in H; tauto. }
   destruct ((o =? op_push_str) && Nat.eqb 0 0).
   - destruct (nthN (m_strings m) v) as [s|] eqn:E; [|exact Hd]. apply clean_app; [exact Hd|].
     apply clean_app; [split; intros H; repeat (destruct H as [H|H]; [discriminate|]); destruct H|].
-    apply clean_app; [apply Hc; eapply nthN_In, E|split; intros [H|[]]; discriminate].
+    apply clean_app; [apply esc_nl_clean, cstr_no0|split; intros [H|[]]; discriminate].
   - destruct (((o =? op_call) || (o =? op_call_extern)) && Nat.eqb 0 0); [|exact Hd].
-    destruct (nthN (m_funcs m) v) as [f|]; [|exact Hd]. destruct (nthN (m_strings m) (fn_name f)) as [s|] eqn:E; [|exact Hd].
+    destruct (nthN (m_funcs m) v) as [f|] eqn:Ef; [|exact Hd]. destruct (nthN (m_strings m) (fn_name f)) as [s|] eqn:E; [|exact Hd].
     apply clean_app; [exact Hd|]. apply clean_app; [split; intros H; repeat (destruct H as [H|H]; [discriminate|]); destruct H|].
-    apply Hc. eapply nthN_In, E.
+    destruct (Hs f s (nthN_In _ _ _ Ef) E) as [C1 C2]. split; intros H; apply cstr_sub in H; tauto.
 Qed.
 
-Lemma printed_instr_clean m L p i : strs_clean m -> instr_ok TL good L (p, i) -> clean (printed_instr TL print_f64 m L p i).
+Lemma printed_instr_clean m L p i : names_clean m -> instr_ok TL good L (p, i) -> clean (printed_instr TL print_f64 m L p i).
 Proof.
   intros Hs [ks [HT Haok]]. cbn [fst snd] in *. unfold printed_instr. rewrite ((LL kinds_of_T) _ _ HT).
   destruct ((LL instr_printed) m L p i ks HT Haok) as [junk [Ej [Hj _]]]. rewrite Ej.
@@ -444,7 +457,7 @@ Proof.
   apply clean_app; [apply plain_clean, all_ident_plain, label_name_ident|split; intros [H|[]]; discriminate].
 Qed.
 
-Lemma printed_lines_clean m L D e : strs_clean m -> Forall (instr_ok TL good L) D -> Forall clean (printed_lines m L D e).
+Lemma printed_lines_clean m L D e : names_clean m -> Forall (instr_ok TL good L) D -> Forall clean (printed_lines m L D e).
 Proof.
   intros Hs Hok. unfold AsmFn.printed_lines. apply Forall_app. split; [|apply lbl_lines_clean].
   induction Hok as [|[p i] D Hpi Hok IH]; [constructor|]. cbn [flat_map fst snd]. apply Forall_app. split; [|exact IH].
@@ -466,43 +479,42 @@ Proof.
 Qed.
 
 Record wf_facts (m : module) : Prop := {
-  wf_clean : strs_clean m;
   wf_sgood : Forall str_good (m_strings m);
   wf_nodup : distinct_strs (m_strings m) = true;
   wf_fgood : Forall (fent_good m) (m_funcs m);
   wf_lay : layout_okb (m_funcs m) 0 (lenN (m_code m)) = true;
   wf_clen : lenN (m_code m) < 4294967296;
   wf_cbytes : bytes_ok (m_code m);
-  wf_lsum : label_sum m (m_funcs m) <= max_labels;
   wf_ent : m_entry m < 4294967296 }.
 
 Lemma wf_unpack m : wf_moduleb TL good m = true -> wf_facts m.
 Proof.
   unfold wf_moduleb, wf_conjuncts. cbn [forallb]. rewrite !andb_true_iff.
-  intros [Hnul [Hnl [Hcm [Hlen [_ [Hdist [Hff [Hfn [Hlay [Hcb [Hdec [Htg [Hbd [Hpt [Hf64 [Hlt [Hent _]]]]]]]]]]]]]]]]].
-  unfold wf_str_nul, wf_str_nl, wf_str_comment, wf_str_len, all_strings in *. rewrite forallb_forall in Hnul, Hnl, Hcm, Hlen.
+  intros [Hlen [_ [Hdist [Hff [Hfn [Hlay [Hcb [Hdec [Hpt [Hf64 [Hent _]]]]]]]]]]].
+  unfold wf_str_len, all_strings in *. rewrite forallb_forall in Hlen.
   unfold wf_layout in Hlay. apply andb_true_iff in Hlay. destruct Hlay as [Hlay Hcl]. apply N.ltb_lt in Hcl.
   constructor.
-  - intros s Hs. split; [apply (no_byte_notin _ _ _ (Hnl s Hs)); reflexivity|apply (no_byte_notin _ _ _ (Hnul s Hs)); reflexivity].
-  - apply Forall_forall. intros s Hs. split; [|split].
-    + apply (no_byte_notin _ _ _ (Hcm s Hs)); reflexivity.
-    + apply (no_byte_notin _ _ _ (Hcm s Hs)); reflexivity.
-    + apply N.ltb_lt. apply Hlen, Hs.
+  - apply Forall_forall. intros s Hs. apply N.ltb_lt. apply Hlen, Hs.
   - exact Hdist.
-  - apply Forall_forall. intros f Hf. unfold wf_fn_fields, wf_fn_names, wf_code_decodes, wf_code_targets, wf_code_boundaries, wf_code_patches,
-      wf_code_f64, all_codes in *. rewrite forallb_forall in Hff, Hfn, Hdec, Htg, Hbd, Hpt, Hf64.
+  - apply Forall_forall. intros f Hf. unfold wf_fn_fields, wf_fn_names, wf_code_decodes, wf_code_patches, wf_code_f64, all_codes in *.
+    rewrite forallb_forall in Hff, Hfn, Hdec, Hpt, Hf64.
     specialize (Hff f Hf). specialize (Hfn f Hf). rewrite !andb_true_iff, !N.ltb_lt in Hff. destruct Hff as [[Ha Hl] Hu].
     unfold fent_good. split; [|split; [exact Ha|split; [exact Hl|split; [exact Hu|]]]].
     + destruct (nthN (m_strings m) (fn_name f)) as [nm|]; [|discriminate]. exists nm. split; [reflexivity|exact Hfn].
-    + unfold wf_codeb. rewrite (Hdec f Hf), (Htg f Hf), (Hbd f Hf), (Hpt f Hf), (Hf64 f Hf). reflexivity.
+    + unfold wf_codeb. rewrite (Hdec f Hf), (Hpt f Hf), (Hf64 f Hf). reflexivity.
   - exact Hlay.
   - exact Hcl.
   - unfold wf_code_bytes in Hcb. apply bytes_okb_spec. exact Hcb.
-  - unfold wf_label_total in Hlt. apply N.leb_le in Hlt. exact Hlt.
   - unfold wf_entry in Hent. apply N.ltb_lt. exact Hent.
 Qed.
 
-Lemma fn_block_clean m f : strs_clean m -> fent_good m f -> bytes_ok (code_of m f) -> Forall clean (fn_block m f).
+Lemma names_clean_of m : Forall (fent_good m) (m_funcs m) -> names_clean m.
+Proof.
+  intros F f s Hf Hs. rewrite Forall_forall in F. destruct (F f Hf) as [[name [Hn Hok]] _]. rewrite Hs in Hn. inversion Hn; subst.
+  unfold fname_okb in Hok. rewrite !andb_true_iff in Hok. destruct Hok as [[Hid _] _]. apply plain_clean, all_ident_plain, Hid.
+Qed.
+
+Lemma fn_block_clean m f : names_clean m -> fent_good m f -> bytes_ok (code_of m f) -> Forall clean (fn_block m f).
 Proof.
   intros Hs [[name [Hname Hfn]] [_ [_ [_ Hwf]]]] Hbok. unfold fn_block, fn_name_of. rewrite Hname.
   unfold fname_okb in Hfn. rewrite !andb_true_iff in Hfn. destruct Hfn as [[Hid _] _].
@@ -511,7 +523,7 @@ Proof.
   - destruct ((LL function_line_facts) name f Hid) as [_ [_ [H10 H0]]]. split; assumption.
   - apply Forall_app. split.
     + unfold body_lines. destruct (decode_all (length (code_of m f)) (code_of m f) 0) as [D|] eqn:Hd; [|constructor].
-      unfold wf_codeb in Hwf. rewrite !andb_true_iff in Hwf. destruct Hwf as [[[[_ Ht] _] _] Hf].
+      unfold wf_codeb in Hwf. rewrite !andb_true_iff in Hwf. destruct Hwf as [[_ _] Hf].
       apply printed_lines_clean; [exact Hs|apply instr_ok_of; assumption].
     + constructor; [split; intros H; repeat (destruct H as [H|H]; [discriminate|]); destruct H|].
       constructor; [split; intros []|constructor].
@@ -520,19 +532,19 @@ Qed.
 Lemma module_lines_clean m : wf_facts m -> Forall clean (module_lines m).
 Proof.
   intros W. destruct W. unfold module_lines, mid_lines. apply Forall_app. split; [|apply Forall_app; split; [apply Forall_app; split|]].
-  - apply Forall_forall. intros l Hl. apply in_map_iff in Hl. destruct Hl as [s [<- Hs]]. destruct (wf_clean0 s Hs) as [H10 H0].
+  - apply Forall_forall. intros l Hl. apply in_map_iff in Hl. destruct Hl as [s [<- Hs]].
     unfold string_line. apply clean_app; [split; intros H; repeat (destruct H as [H|H]; [discriminate|]); destruct H|].
-    apply clean_app; [split; apply escape_no; try discriminate; assumption|split; intros [H|[]]; discriminate].
+    apply clean_app; [exact (escape_clean s)|split; intros [H|[]]; discriminate].
   - destruct (m_strings m); [constructor|]. constructor; [split; intros []|constructor].
   - destruct (N.testbit (m_flags m) 0); [|constructor]. constructor; [|constructor; [split; intros []|constructor]].
     destruct ((LL dec_line_facts) (B ".entry ") (m_entry m)) as [_ [_ [H10 H0]]]; [|split; assumption].
     repeat (constructor; [first [left; reflexivity | right; reflexivity]|]). constructor.
   - apply Forall_forall. intros l Hl. apply in_flat_map in Hl. destruct Hl as [f [Hf Hl]].
-    rewrite Forall_forall in wf_fgood0.
+    pose proof (names_clean_of m wf_fgood0) as Hnc. rewrite Forall_forall in wf_fgood0.
     assert (Hb : bytes_ok (code_of m f)).
     { pose proof (layout_bounds _ _ _ wf_lay0 f Hf) as Hle. destruct (slice_spec (m_code m) _ _ Hle) as [E _]. fold (code_of m f) in E.
       rewrite E. apply bytes_ok_firstn, bytes_ok_skipn, wf_cbytes0. }
-    pose proof (fn_block_clean m f wf_clean0 (wf_fgood0 f Hf) Hb) as F. rewrite Forall_forall in F. apply F, Hl.
+    pose proof (fn_block_clean m f Hnc (wf_fgood0 f Hf) Hb) as F. rewrite Forall_forall in F. apply F, Hl.
 Qed.
 
 (* ---------------------------------------------------------------- the theorem *)
@@ -545,16 +557,13 @@ Proof.
   destruct (join_clean _ Hclean) as [H10 H0].
   assert (Hdl : disasm_module TL print_f64 m = join (module_lines m)).
   { apply disasm_module_lines; try assumption.
-    - apply Forall_forall. intros s Hs. exact (proj2 (wf_clean0 s Hs)).
-    - intros f Hf. split; [eapply layout_bounds; eassumption|]. rewrite Forall_forall in wf_fgood0.
-      destruct (wf_fgood0 f Hf) as [_ [_ [_ [_ Hc]]]]. unfold wf_codeb in Hc. rewrite !andb_true_iff in Hc. tauto. }
+    intros f Hf. split; [eapply layout_bounds; eassumption|]. rewrite Forall_forall in wf_fgood0.
+    destruct (wf_fgood0 f Hf) as [_ [_ [_ [_ Hc]]]]. unfold wf_codeb in Hc. rewrite !andb_true_iff in Hc. tauto. }
   unfold asm_assemble. rewrite Hdl, (cstr_id _ H0), (split_join_all _ H10).
-  (* the strings *)
   destruct (run_strings (m_strings m) [] (init_state) eq_refl (distinct_NoDup _ wf_nodup0) wf_sgood0)
     as [st_s [Hr_s [Em_s [Ei_s [Ep_s El_s]]]]]. cbn [app] in Em_s.
   set (fl := if N.testbit (m_flags m) 0 then flag_has_main else 0).
   set (en := if N.testbit (m_flags m) 0 then m_entry m else 0).
-  (* blank line and .entry *)
   assert (Hmid : exists st_m, run st_s (mid_lines m) = inl st_m /\
             a_mod st_m = mkmod fl en (m_strings m) [] [] /\ a_in_fn st_m = false /\ a_patches st_m = [] /\ a_labels st_m = []).
   { unfold mid_lines. match goal with |- context [AsmFn.run TL parse_f64 st_s (?a ++ ?b)] => set (bl := a) end.
@@ -567,11 +576,8 @@ Proof.
       repeat split; assumption.
     - exists st_s. repeat split; assumption. }
   destruct Hmid as [st_m [Hr_m [Em_m [Ei_m [Ep_m El_m]]]]].
-  (* the functions *)
   assert (Hoff0 : 0 <= lenN (m_code m)) by lia.
-  assert (HLS0 : forall l, In l (a_labels st_m) -> l_fn l < lenN (@nil fent)) by (rewrite El_m; intros l []).
-  assert (Hsum0 : lenN (a_labels st_m) + label_sum m (m_funcs m) <= max_labels) by (rewrite El_m, lenN_nil; lia).
-  destruct (run_fns m fl en wf_nodup0 wf_cbytes0 wf_clen0 (m_funcs m) [] 0 st_m Em_m Hoff0 Ei_m Ep_m HLS0 wf_lay0 wf_fgood0 Hsum0)
+  destruct (run_fns m fl en wf_nodup0 wf_cbytes0 wf_clen0 (m_funcs m) [] 0 st_m Em_m Hoff0 Ei_m Ep_m El_m wf_lay0 wf_fgood0)
     as [st_f [Hr_f [Em_f Ei_f]]].
   assert (Hrun : run init_state (module_lines m) = inl st_f).
   { unfold module_lines. rewrite (LL run_app), Hr_s. rewrite (LL run_app), Hr_m. exact Hr_f. }
@@ -644,20 +650,14 @@ Definition roundtrip_err TL pf sf (m : module) : option (N * N) :=
 Lemma forallb_map_nth {A} (g : A -> list bool) k (l : list A) :
   forallb (fun r => nth k r true) (map g l) = forallb (fun x => nth k (g x) true) l.
 Proof. induction l as [|x l IH]; [reflexivity|]. cbn [map forallb]. rewrite IH. reflexivity. Qed.
-Lemma fold_map_labels TL (m : module) fs :
-  fold_right (fun c a => lenN (fn_labels TL c) + a) 0 (map (code_of m) fs) =
-  fold_right (fun f a => lenN (fn_labels TL (code_of m f)) + a) 0 fs.
-Proof. induction fs as [|f fs IH]; [reflexivity|]. cbn [map fold_right]. rewrite IH. reflexivity. Qed.
-
 Lemma wf_conjuncts_fast_eq TL good m : wf_conjuncts_fast TL good m = wf_conjuncts TL good m.
 Proof.
-  unfold wf_conjuncts_fast, wf_conjuncts. cbv zeta. rewrite !map_map, !forallb_map_nth, fold_map_labels.
-  unfold wf_code_decodes, wf_code_targets, wf_code_boundaries, wf_code_patches, wf_code_f64, wf_label_total, all_codes.
+  unfold wf_conjuncts_fast, wf_conjuncts. cbv zeta. rewrite !forallb_map_nth.
+  unfold wf_code_decodes, wf_code_patches, wf_code_f64, all_codes.
   assert (E : forall k (chk : list byte -> bool), (forall c, nth k (code_checks TL good c) true = chk c) ->
               forallb (fun x => nth k (code_checks TL good (code_of m x)) true) (m_funcs m) = forallb (fun f => chk (code_of m f)) (m_funcs m)).
   { intros k chk H. induction (m_funcs m) as [|f fs IH]; [reflexivity|]. cbn [forallb]. rewrite H, IH. reflexivity. }
-  rewrite (E 0%nat (code_decodes TL)), (E 1%nat (code_targets TL)), (E 2%nat (code_boundaries TL)), (E 3%nat (code_patches TL)),
-          (E 4%nat (code_f64 TL good)); [reflexivity| | | | |];
-    intros c; unfold code_checks, code_decodes, code_targets, code_boundaries, code_patches, code_f64, on_code; cbv zeta;
+  rewrite (E 0%nat (code_decodes TL)), (E 1%nat (code_patches TL)), (E 2%nat (code_f64 TL good)); [reflexivity| | |];
+    intros c; unfold code_checks, code_decodes, code_patches, code_f64, on_code;
     destruct (decode_all TL (length c) c 0); reflexivity.
 Qed.
